@@ -36,6 +36,8 @@ func Graph6Decode(s string) (*DenseGraph, error) {
 	if s[0] != 126 {
 		n = uint64(s[0] - 63)
 		i = 1
+	} else if len(s) < 2 {
+		return &DenseGraph{}, errors.New("String too short - unable to decode n")
 	} else if s[1] != 126 {
 		if len(s) < 4 {
 			return &DenseGraph{}, errors.New("String too short - unable to decode n")
@@ -128,6 +130,9 @@ func Sparse6Decode(s string) (*SparseGraph, error) {
 	}
 
 	//Check the initial byte and remove it.
+	if len(s) == 0 {
+		return &SparseGraph{}, errors.New("String too short - missing the initial :")
+	}
 	if s[0] != 58 {
 		return &SparseGraph{}, fmt.Errorf("Incorrect first character. Expected: : Found: %v", s[0])
 	}
@@ -143,9 +148,15 @@ func Sparse6Decode(s string) (*SparseGraph, error) {
 	var n uint64
 	i := 0
 
+	if len(s) == 0 {
+		return &SparseGraph{}, errors.New("String too short - unable to decode n")
+	}
+
 	if s[0] != 126 {
 		n = uint64(s[0] - 63)
 		i = 1
+	} else if len(s) < 2 {
+		return &SparseGraph{}, errors.New("String too short - unable to decode n")
 	} else if s[1] != 126 {
 		if len(s) < 4 {
 			return &SparseGraph{}, errors.New("String too short - unable to decode n")
@@ -161,42 +172,34 @@ func Sparse6Decode(s string) (*SparseGraph, error) {
 	}
 
 	g := NewSparse(int(n), nil)
+	if n < 2 {
+		//There are no possible edges.
+		return g, nil
+	}
 	v := 0
 	k := 64 - bits.LeadingZeros64(n-1)
-	var bitIndex uint
-	for {
-		b := ((s[i] - 63) >> (5 - bitIndex)) & 1
+	//Read the (b, x) pairs of 1 + k bits. An incomplete pair at the end is discarded.
+	bitIndex := 6 * i
+	for bitIndex+1+k <= 6*len(s) {
+		b := ((s[bitIndex/6] - 63) >> uint(5-bitIndex%6)) & 1
 		bitIndex++
-		if bitIndex == 6 {
-			bitIndex = 0
-			i++
-			if i >= len(s) {
-				return g, nil
-			}
+		x := 0
+		for j := 0; j < k; j++ {
+			x <<= 1
+			x |= int(((s[bitIndex/6] - 63) >> uint(5-bitIndex%6)) & 1)
+			bitIndex++
 		}
 		if b == 1 {
 			v++
 		}
-		x := 0
-		for j := 0; j < k; j++ {
-			if ((s[i]-63)>>(5-bitIndex))&1 == 1 {
-				x |= 1 << uint(k-j-1)
-			}
-			bitIndex++
-			if bitIndex == 6 {
-				bitIndex = 0
-				i++
-				if i >= len(s) {
-					return g, nil
-				}
-			}
-		}
 		if x > v {
 			v = x
-		} else {
+		} else if v < int(n) {
+			//Pairs which point at a vertex >= n (for example padding) are ignored.
 			g.AddEdge(v, x)
 		}
 	}
+	return g, nil
 }
 
 //Sparse6Encode returns an encoding of g. Note that the encoding is not unique but this should align with the format used by showg, geng, nauty etc.
